@@ -85,7 +85,7 @@ Definition is_role_namespace (n : str) : bool := str_eqb n (S_ "Roles") || has_p
 Definition handle_create (st : store) (parts : list str) : store * res :=
   if length parts <? 3 then (st, RBad) else
   let name := parse_quoted (nth 2 parts []) in
-  let name := trim_suffix name [delim] in
+  let name := trim_suffix name [delim] in     (* TrimSuffix comes right after parsing, before every check *)
   if is_nil name then (st, RNo)
   else if str_eqb (to_upper name) INBOX then (st, RNo)
   else if is_role_namespace name then (st, RNo)
